@@ -443,6 +443,19 @@ func noteInFlightDuplicate(w *world, x *mc.X, r *results) {
 	}
 }
 
+// noteMaxWaiters remembers the largest number of retransmissions seen
+// waiting on one busy NFSv4.1 slot (evidence only: it makes the outcomes of
+// the two-duplicates scenario distinguish "both waited" from "one waited").
+var busyWaiters = regexp.MustCompile(`busy\+([0-9]+)`)
+
+func noteMaxWaiters(w *world, x *mc.X, r *results) {
+	for _, m := range busyWaiters.FindAllStringSubmatch(w.inspect41().Dump, -1) {
+		if m[1] > r.get("max-waiters") {
+			r.set("max-waiters", m[1])
+		}
+	}
+}
+
 // sameReplyUncached is sameReply for requests sent with sa_cachethis=false.
 // Which of the two identical requests the server treats as the original is
 // decided by the schedule. The one that arrived second
@@ -473,6 +486,161 @@ func sameReplyUncached(file string) func(w *world, x *mc.X, r *results) {
 		leaf := w.fs.linked[file]
 		if got := leaf.opens[bitRead]; got != 1 {
 			x.FailP("C19", "concurrent/executed-twice", "original and duplicate (sa_cachethis=false): leaf %s was opened %d times instead of once", leaf.id, got)
+		}
+	}
+}
+
+// sameReplies generalises sameReply to several retransmissions of one
+// request that are all in flight together with it: the requests are
+// identical, so whichever enters the server first is executed; EVERY other
+// one must end with exactly its bytes, and the VFS saw one open.
+func sameReplies(file string, opensBefore int, tags ...string) func(w *world, x *mc.X, r *results) {
+	return func(w *world, x *mc.X, r *results) {
+		a := r.get(tags[0])
+		if !strings.HasPrefix(a, "0:") {
+			x.FailP("C19", "concurrent/original-failed", "the original request failed: %s", a)
+			return
+		}
+		for _, t := range tags[1:] {
+			if b := r.get(t); a != b {
+				x.FailP("C19", "concurrent/duplicate-different-reply", "retransmission %q, which arrived while the original was being processed, was answered differently:\noriginal  %s\n%-9s %s", t, a, t, b)
+			}
+		}
+		leaf := w.fs.linked[file]
+		if got := leaf.opens[bitRead]; got != opensBefore+1 {
+			x.FailP("C19", "concurrent/executed-twice", "original and %d in-flight retransmissions: leaf %s was opened %d times instead of once", len(tags)-1, leaf.id, got-opensBefore)
+		}
+	}
+}
+
+// next40close sends the open-owner's NEXT request (CLOSE of another file it
+// has open, sequence number last+2) while OPEN (last+1) and its
+// retransmission are in flight.
+func next40close(tag, cl, owner, file string) func(w *world, x *mc.X, r *results) {
+	return func(w *world, x *mc.X, r *results) {
+		o := w.c40[cl].owners[owner]
+		op := o.files[file]
+		res := w.compound(0, "CLOSE(next seqid)", putfh(op.leaf.handle), &nfsv4.NfsArgop4_OP_CLOSE{Opclose: nfsv4.Close4args{Seqid: nextSeq(nextSeq(o.seq)), OpenStateid: op.sid}})
+		r.set(tag, fmt.Sprintf("%d:%x", res.Status, encodeRes(res)))
+	}
+}
+
+// sameReplyOrOvertaken is the oracle of "original, retransmission and the
+// same open-owner's next request in flight together". The two OPENs are
+// identical; the one the server executes is the original. The other one
+// ends with the original's bytes, unless the request with the NEXT sequence
+// number was processed before it got its turn: NFSv4.0 keeps one reply per
+// owner, so a retransmission that the owner's next request has overtaken
+// can only be refused (NFS4ERR_BAD_SEQID), without side effects. The next
+// request itself is either executed (NFS4_OK) or, if it entered the server
+// before the OPEN it follows, refused as misordered. The VFS saw one open.
+func sameReplyOrOvertaken(file string, opensBefore int) func(w *world, x *mc.X, r *results) {
+	return func(w *world, x *mc.X, r *results) {
+		a, b, n := r.get("original"), r.get("duplicate"), r.get("next")
+		if !strings.HasPrefix(a, "0:") {
+			a, b = b, a
+		}
+		if !strings.HasPrefix(a, "0:") {
+			x.FailP("C19", "concurrent/original-failed", "neither of the two identical OPEN requests succeeded: %s / %s (next request: %s)", a, b, n)
+			return
+		}
+		badSeqid := fmt.Sprintf("%d:", nfsv4.NFS4ERR_BAD_SEQID)
+		if a != b && !(strings.HasPrefix(b, badSeqid) && strings.HasPrefix(n, "0:")) {
+			x.FailP("C19", "concurrent/duplicate-different-reply", "the retransmission was neither answered with the original's reply nor refused because the owner's next request had overtaken it:\noriginal  %s\nduplicate %s\nnext      %s", a, b, n)
+		}
+		if !strings.HasPrefix(n, "0:") && !strings.HasPrefix(n, badSeqid) {
+			x.FailP("C19", "concurrent/next-request-misanswered", "the open-owner's next request (CLOSE, sequence number last+2) was neither executed nor refused as misordered: %s", n)
+		}
+		leaf := w.fs.linked[file]
+		if got := leaf.opens[bitRead]; got != opensBefore+1 {
+			x.FailP("C19", "concurrent/executed-twice", "original, retransmission and next request: leaf %s was opened %d times instead of once", leaf.id, got-opensBefore)
+		}
+	}
+}
+
+// --- C19: CREATE_SESSION that cannot be executed yet ------------------------
+
+// delayedCreateSession is a new incarnation of client cl (same owner, new
+// verifier): EXCHANGE_ID, then CREATE_SESSION, retransmitted with the SAME
+// csa_sequence up to `attempts` times until it succeeds. While the confirmed
+// incarnation has a request parked in the VFS the server answers
+// NFS4ERR_DELAY without executing (or caching) anything.
+func delayedCreateSession(cl string, attempts int) func(w *world, x *mc.X, r *results) {
+	return func(w *world, x *mc.X, r *results) {
+		res := w.compound(1, "EXCHANGE_ID", &nfsv4.NfsArgop4_OP_EXCHANGE_ID{OpexchangeId: nfsv4.ExchangeId4args{
+			EiaClientowner:  nfsv4.ClientOwner4{CoVerifier: nfsv4.Verifier4{2}, CoOwnerid: []byte(cl)},
+			EiaStateProtect: &nfsv4.StateProtect4A_SP4_NONE{},
+		}})
+		ok := res.Resarray[0].(*nfsv4.NfsResop4_OP_EXCHANGE_ID).OpexchangeId.(*nfsv4.ExchangeId4res_NFS4_OK)
+		id, seq := ok.EirResok4.EirClientid, ok.EirResok4.EirSequenceid
+		r.set("cs-args", fmt.Sprintf("%d/%d", id, seq))
+		for i := 0; i < attempts; i++ {
+			x.ResetLocal(fmt.Sprintf("create%d", i))
+			res := w.compound(1, "CREATE_SESSION", createSessionArgs(id, seq))
+			r.set(fmt.Sprintf("cs%d", i), fmt.Sprintf("%d:%x", res.Status, encodeRes(res)))
+			if res.Status == nfsv4.NFS4_OK {
+				break
+			}
+		}
+	}
+}
+
+// createSessionRetransmissions judges the replies of delayedCreateSession
+// once everything has returned. A retransmission is answered either by
+// executing the request (NFS4_OK) or with the reply the request got before
+// (here NFS4ERR_DELAY: not executed, try again) -- never with a reply that
+// belongs to another sequence number. As soon as the old incarnation's
+// request has returned the retransmission must succeed, and once it has
+// succeeded every further retransmission gets exactly those bytes and
+// creates no second session.
+func createSessionRetransmissions(attempts int) func(w *world, x *mc.X, r *results) {
+	return func(w *world, x *mc.X, r *results) {
+		var id uint64
+		var seq uint32
+		if _, err := fmt.Sscanf(r.get("cs-args"), "%d/%d", &id, &seq); err != nil {
+			return
+		}
+		okPrefix, delayPrefix := "0:", fmt.Sprintf("%d:", nfsv4.NFS4ERR_DELAY)
+		first, success := r.get("cs0"), ""
+		seen := map[string]bool{}
+		judge := func(what, reply string, retransmission bool) {
+			switch {
+			case success != "":
+				if reply != success {
+					x.FailP("C19", "concurrent/create-session-retransmission-different-reply", "%s: the request had already been executed, but its retransmission was answered differently:\nexecuted  %s\nthis one  %s", what, success, reply)
+				}
+			case strings.HasPrefix(reply, okPrefix):
+				success = reply
+			case retransmission && !seen[reply]:
+				x.FailP("C19", "concurrent/create-session-retransmission-misanswered", "%s (same csa_sequence %d; first reply %s) was neither executed nor answered like before, but with %s (NFS4ERR_SEQ_MISORDERED is %d, NFS4ERR_DELAY is %d)", what, seq, strings.SplitN(first, ":", 2)[0], strings.SplitN(reply, ":", 2)[0], nfsv4.NFS4ERR_SEQ_MISORDERED, nfsv4.NFS4ERR_DELAY)
+			}
+			seen[reply] = true
+		}
+		for i := 0; i < attempts; i++ {
+			if reply := r.get(fmt.Sprintf("cs%d", i)); reply != "" {
+				judge(fmt.Sprintf("CREATE_SESSION retransmission %d", i), reply, i > 0)
+			}
+		}
+		if !strings.HasPrefix(first, okPrefix) && !strings.HasPrefix(first, delayPrefix) {
+			// Not the history this scenario is about.
+			return
+		}
+		if success == "" {
+			res := w.compound(1, "CREATE_SESSION(after the old incarnation's request returned)", createSessionArgs(id, seq))
+			reply := fmt.Sprintf("%d:%x", res.Status, encodeRes(res))
+			judge("CREATE_SESSION retransmitted after the old incarnation's request had returned", reply, true)
+			if success == "" {
+				x.FailP("C19", "concurrent/create-session-never-executed", "CREATE_SESSION (csa_sequence %d) was first answered %s; retransmitted after the old incarnation's blocking request had returned it is still not executed: %s", seq, strings.SplitN(first, ":", 2)[0], strings.SplitN(reply, ":", 2)[0])
+				return
+			}
+		}
+		// Executed: one more retransmission gets the same bytes and
+		// creates nothing.
+		before := w.snapshot()
+		res := w.compound(1, "CREATE_SESSION(retransmitted after execution)", createSessionArgs(id, seq))
+		judge("CREATE_SESSION retransmitted after it had been executed", fmt.Sprintf("%d:%x", res.Status, encodeRes(res)), true)
+		if after := w.snapshot(); after != before {
+			x.FailP("C19", "concurrent/create-session-executed-twice", "the retransmission of an executed CREATE_SESSION changed state:\n--- before\n%s\n--- after\n%s", before, after)
 		}
 	}
 }
@@ -564,6 +732,42 @@ func scenarios() []*mc.Scenario {
 		concScenario(concSpec{name: "c40-inflight-duplicate-new-owner", props: []string{"C19", "C18"}, liveness: c19, prefix: prefix40Confirmed("c1"),
 			threads: []concThread{{"original", dup40("original", "c1", "O7", "a", 1)}, {"duplicate", dup40("duplicate", "c1", "O7", "a", 1)}},
 			finish:  sameReply("a", 0)}),
+		// SEVERAL requests of the same open-owner waiting for the one
+		// transaction that is parked in VirtualOpenChild (ALL interleavings
+		// also in the quick tier: with state pruning these are < 2000
+		// executions). Two retransmissions ...
+		concScenario(concSpec{name: "c40-inflight-two-duplicates", props: []string{"C19", "C18"}, liveness: c19, prefix: prefix40Open("c1", "O1", "b", accRead),
+			bounds:  map[string]int{"quick": -1, "thorough": -1},
+			threads: []concThread{{"original", dup40("original", "c1", "O1", "a", 1)}, {"duplicate", dup40("duplicate", "c1", "O1", "a", 1)}, {"duplicate2", dup40("duplicate2", "c1", "O1", "a", 1)}},
+			finish:  sameReplies("a", 0, "original", "duplicate", "duplicate2")}),
+		// ... the same for an open-owner the server has never seen ...
+		concScenario(concSpec{name: "c40-inflight-two-duplicates-new-owner", props: []string{"C19"}, liveness: c19, prefix: prefix40Confirmed("c1"),
+			bounds:  map[string]int{"quick": -1, "thorough": -1},
+			threads: []concThread{{"original", dup40("original", "c1", "O7", "a", 1)}, {"duplicate", dup40("duplicate", "c1", "O7", "a", 1)}, {"duplicate2", dup40("duplicate2", "c1", "O7", "a", 1)}},
+			finish:  sameReplies("a", 0, "original", "duplicate", "duplicate2")}),
+		// ... and a retransmission plus the open-owner's NEXT request
+		// (CLOSE of its other file with sequence number last+2).
+		concScenario(concSpec{name: "c40-inflight-duplicate-next-seqid", props: []string{"C19", "C18"}, liveness: c19, prefix: prefix40Open("c1", "O1", "b", accRead),
+			bounds:  map[string]int{"quick": -1, "thorough": -1},
+			threads: []concThread{{"original", dup40("original", "c1", "O1", "a", 1)}, {"duplicate", dup40("duplicate", "c1", "O1", "a", 1)}, {"next", next40close("next", "c1", "O1", "b")}},
+			finish:  sameReplyOrOvertaken("a", 0)}),
+		// NFSv4.1 twin: two retransmissions registered as waiters of one
+		// busy slot, all interleavings.
+		concScenario(concSpec{name: "c41-inflight-two-duplicates", props: []string{"C19"}, liveness: c19, prefix: prefix41Session("d1"),
+			bounds:  map[string]int{"quick": -1, "thorough": -1},
+			threads: []concThread{{"original", dup41("original", "d1", 0, "a")}, {"duplicate", dup41("duplicate", "d1", 0, "a")}, {"duplicate2", dup41("duplicate2", "d1", 0, "a")}},
+			monitor: noteMaxWaiters,
+			finish:  sameReplies("a", 0, "original", "duplicate", "duplicate2")}),
+		// NFSv4.1 CREATE_SESSION of a new incarnation while the confirmed
+		// incarnation has a request parked in the VFS (WRITE inside the
+		// leaf, OPEN inside the directory): answered NFS4ERR_DELAY without
+		// being executed, then retransmitted with the same csa_sequence.
+		concScenario(concSpec{name: "c41-create-session-delayed-write", props: []string{"C19", "C18"}, liveness: c19, prefix: p41,
+			threads: []concThread{{"io", raw41("d1", 0, "WRITE", ops41io(ioWrite, "d1", "O1", "a"))}, {"register", delayedCreateSession("d1", 2)}},
+			finish:  createSessionRetransmissions(2)}),
+		concScenario(concSpec{name: "c41-create-session-delayed-open", props: []string{"C19", "C18"}, liveness: c19, prefix: prefix41Session("d1"),
+			threads: []concThread{{"open", dup41("original", "d1", 0, "a")}, {"register", delayedCreateSession("d1", 2)}},
+			finish:  createSessionRetransmissions(2)}),
 	)
 	return out
 }
